@@ -89,12 +89,18 @@ func (s *StandardUpgradeableBeaconState) UnwrapBeaconState() common.BeaconState 
 	return s.BeaconState
 }
 
+// atForkBoundary reports whether slot is the first slot of forkEpoch. The epoch is compared, not
+// forkEpoch*SLOTS_PER_EPOCH: that product wraps around for large fork epochs (e.g. FAR_FUTURE_EPOCH).
+func atForkBoundary(spec *common.Spec, slot common.Slot, forkEpoch common.Epoch) bool {
+	return slot%spec.SLOTS_PER_EPOCH == 0 && spec.SlotToEpoch(slot) == forkEpoch
+}
+
 func (s *StandardUpgradeableBeaconState) UpgradeMaybe(ctx context.Context, spec *common.Spec, epc *common.EpochsContext) error {
 	slot, err := s.BeaconState.Slot()
 	if err != nil {
 		return err
 	}
-	if tpre, ok := s.BeaconState.(*phase0.BeaconStateView); ok && slot == common.Slot(spec.ALTAIR_FORK_EPOCH)*spec.SLOTS_PER_EPOCH {
+	if tpre, ok := s.BeaconState.(*phase0.BeaconStateView); ok && atForkBoundary(spec, slot, spec.ALTAIR_FORK_EPOCH) {
 		post, err := altair.UpgradeToAltair(spec, epc, tpre)
 		if err != nil {
 			return fmt.Errorf("failed to upgrade phase0 to altair state: %v", err)
@@ -104,28 +110,28 @@ func (s *StandardUpgradeableBeaconState) UpgradeMaybe(ctx context.Context, spec 
 		}
 		s.BeaconState = post
 	}
-	if tpre, ok := s.BeaconState.(*altair.BeaconStateView); ok && slot == common.Slot(spec.BELLATRIX_FORK_EPOCH)*spec.SLOTS_PER_EPOCH {
+	if tpre, ok := s.BeaconState.(*altair.BeaconStateView); ok && atForkBoundary(spec, slot, spec.BELLATRIX_FORK_EPOCH) {
 		post, err := bellatrix.UpgradeToBellatrix(spec, epc, tpre)
 		if err != nil {
 			return fmt.Errorf("failed to upgrade atalir to bellatrix state: %v", err)
 		}
 		s.BeaconState = post
 	}
-	if tpre, ok := s.BeaconState.(*bellatrix.BeaconStateView); ok && slot == common.Slot(spec.CAPELLA_FORK_EPOCH)*spec.SLOTS_PER_EPOCH {
+	if tpre, ok := s.BeaconState.(*bellatrix.BeaconStateView); ok && atForkBoundary(spec, slot, spec.CAPELLA_FORK_EPOCH) {
 		post, err := capella.UpgradeToCapella(spec, epc, tpre)
 		if err != nil {
 			return fmt.Errorf("failed to upgrade bellatrix to capella state: %v", err)
 		}
 		s.BeaconState = post
 	}
-	if tpre, ok := s.BeaconState.(*capella.BeaconStateView); ok && slot == common.Slot(spec.DENEB_FORK_EPOCH)*spec.SLOTS_PER_EPOCH {
+	if tpre, ok := s.BeaconState.(*capella.BeaconStateView); ok && atForkBoundary(spec, slot, spec.DENEB_FORK_EPOCH) {
 		post, err := deneb.UpgradeToDeneb(spec, epc, tpre)
 		if err != nil {
 			return fmt.Errorf("failed to upgrade capella to deneb state: %v", err)
 		}
 		s.BeaconState = post
 	}
-	if tpre, ok := s.BeaconState.(*deneb.BeaconStateView); ok && slot == common.Slot(spec.ELECTRA_FORK_EPOCH)*spec.SLOTS_PER_EPOCH {
+	if tpre, ok := s.BeaconState.(*deneb.BeaconStateView); ok && atForkBoundary(spec, slot, spec.ELECTRA_FORK_EPOCH) {
 		post, err := electra.UpgradeToElectra(spec, epc, tpre)
 		if err != nil {
 			return fmt.Errorf("failed to upgrade deneb to electra state: %v", err)
